@@ -42,10 +42,14 @@ def x_load(M, o):
     address, offset_addr = address_of(M, o)
     priv = False if o.get('unpriv') else None
     if size == 8:
-        lo = M.mem_a_cur(address, 4)
-        hi = M.mem_a_cur((address + 4) & M32, 4)
-        M.setR(o['t'], lo)
-        M.setR(o['t2'], hi)
+        if M.cfg.get('have_lpae') and not (address & 7):
+            data = M.mem_a_cur(address, 8)
+            big = M.bit('cpsr', 9)
+            M.setR(o['t'], (data >> 32) if big else (data & M32))
+            M.setR(o['t2'], (data & M32) if big else (data >> 32))
+        else:
+            M.setR(o['t'], M.mem_a_cur(address, 4))                     # R[t] is written before the second access can abort
+            M.setR(o['t2'], M.mem_a_cur((address + 4) & M32, 4))
         if o.get('wback'):
             M.setR(o['n'], offset_addr)
         return
@@ -81,8 +85,13 @@ def x_store(M, o):
     priv = False if o.get('unpriv') else None
     t = o['t']
     if size == 8:
-        M.mem_a_cur(address, 4, M.R(t))
-        M.mem_a_cur((address + 4) & M32, 4, M.R(o['t2']))
+        if M.cfg.get('have_lpae') and not (address & 7):
+            big = M.bit('cpsr', 9)
+            data = ((M.R(t) << 32) | M.R(o['t2'])) if big else ((M.R(o['t2']) << 32) | M.R(t))
+            M.mem_a_cur(address, 8, data)
+        else:
+            M.mem_a_cur(address, 4, M.R(t))
+            M.mem_a_cur((address + 4) & M32, 4, M.R(o['t2']))
     elif size == 4:
         if M.unaligned_support() or not (address & 3) or not M.thumb:
             M.mem_u(address, 4, priv, pc_store_value(M) if t == 15 else M.R(t))
